@@ -15,8 +15,8 @@ class CXX2C(Emitter, ExprMixin, LibMixin, StmtMixin):
         self.pending_defaults = collections.OrderedDict()
         self.used_records = collections.OrderedDict()
         self.cur_fn = None; self.cur_cname = None
-        self.vars = {}; self.pre = []; self.iter_of = {}; self.range_cleanup = []
-        self.this_mode = None; self.ctor_mode = False; self.loopn = 0
+        self.vars = {}; self.pre = []; self.iter_of = {}; self.iter_ty = {}; self.range_cleanup = []
+        self.this_mode = None; self.ctor_mode = False; self.cur_this_const = False; self.loopn = 0; self.inline_checks = 0; self.var_ty = {}
         Emitter.__init__(self, unit, objs)
         cxx2c_idioms.install(self)
 
@@ -126,7 +126,7 @@ class CXX2C(Emitter, ExprMixin, LibMixin, StmtMixin):
         out = set()
         for line in list(self.autostubs.values()) + list(self.protos.values()) + list(self.bodies.values()):
             for m in re.findall(r'\bopq_\w+', line): out.add(m)
-        return out - set(self.opaque.keys())
+        return out - set(self.opaque.keys()) - set(self.autostubs.keys()) - set(self.bodies.keys())
 
     def report(self):
         return {
